@@ -344,13 +344,14 @@ class ImplicitFuncComp(ImplicitComponent):
             Value of input or state variable.
         """
         inps = inputs.values()
-        outs = outputs.values()
+        # states may appear in the signature in any order, so look them up by name
+        outs = dict(zip(outputs, outputs.values()))
 
         for name, meta in self._apply_nonlinear_func._inputs.items():
             if 'is_option' in meta:  # it's an option
                 yield self.options[name]
             elif 'resid' in meta:  # it's a state
-                yield next(outs)
+                yield outs[name]
             else:
                 yield next(inps)
 
@@ -404,16 +405,17 @@ class ImplicitFuncComp(ImplicitComponent):
             Chunks in OpenMDAO jacobian order.
         """
         inps = []
-        ordered_chunks = []
+        states = {}
         chunk_iter = iter(col_chunks)
-        for meta in self._apply_nonlinear_func._inputs.values():
+        for name, meta in self._apply_nonlinear_func._inputs.items():
             if 'is_option' in meta:  # it's an option
                 pass  # skip it (don't include in jacobian)
             elif 'resid' in meta:  # it's a state
-                ordered_chunks.append(next(chunk_iter))
+                states[name] = next(chunk_iter)
             else:
                 inps.append(next(chunk_iter))
-        return ordered_chunks + inps
+        # states in the order of the outputs vector, whatever their order in the signature
+        return [states[name] for name in self._outputs] + inps
 
     def _reorder_cols(self, arr, coloring=None):
         """
